@@ -2,20 +2,19 @@ import MesonModel.Life.ParentCurrent
 /-
 The well-formedness invariant of a build directory and its preservation by `step`.
 
-`StoreInv top s` = `Wf s` (ids point into the heap, distinct keys own distinct objects) ∧ `ParentCurrent s` (every
-parent pointer is the object registered under the top-level key) ∧ `TopProj top s` (every registered top-level
-project option is an option of the top-level option file).  `DirInv d` asks it of the persisted store.
+`StoreInv s` = `Wf s` (ids point into the heap, distinct keys own distinct objects) ∧ `ParentCurrent s` (every
+parent pointer is the object registered under the top-level key).  `DirInv d` asks it of the persisted store.
 
-`step_inv`: every command — setup, reconfigure, configure, wipe, regeneration after a corrupt coredata.dat, edits,
-and all their failing variants — keeps `DirInv`, except the *deletion of an option from the top-level option file*
-(`NoTopRemoval`).  That exception is real: the removal pass of `update_project_options` deletes a top-level option
-although subproject options still point at it.
+`step_inv`: EVERY command — setup, reconfigure, configure, wipe, regeneration after a corrupt coredata.dat,
+option-file edits (incl. removing the last option, deleting / re-creating / renaming the file) and all their failing
+variants — keeps `DirInv`.  (Before the removal pass of `update_project_options` unlinked the children of a removed
+option this needed the side condition "no top-level option is deleted".)
 -/
 namespace MesonModel.Life
 open MesonModel.Options MesonModel.Options.M
 set_option linter.unusedSimpArgs false
 
-/-! ## a generic "keeps `P`" framework (P closed under `updObj`) -/
+/-! ## a generic "keeps `P`" framework -/
 
 structure Keeps (P : Store → Prop) {α : Type} (m : M α) : Prop where
   run : ∀ s, P s → P (m s).2
@@ -61,275 +60,24 @@ theorem getObj (id : Nat) : Keeps P (getObj id) := by
   constructor; intro s h; unfold MesonModel.Options.getObj; split <;> exact h
 end Keeps
 
-/-- the project-option key set is `po` -/
-def POIs (po : List Key) (s : Store) : Prop := s.projectOptions = po
+def StoreInv (s : Store) : Prop := Wf s ∧ ParentCurrent s
 
-theorem poIs_updObj {po : List Key} {s : Store} (id : Nat) (f : Obj → Obj) (h : POIs po s) : POIs po (s.updObj id f) := by
-  unfold Store.updObj; split <;> exact h
+theorem keeps_of_two {α : Type} {m : M α} (hw : PresW m) (hp : PresPC m) : Keeps StoreInv m :=
+  ⟨fun s h => ⟨hw.run s h.1, hp.run s h.2⟩⟩
 
-theorem Keeps.objSetValuePO {po : List Key} (id : Nat) (v : Val) : Keeps (POIs po) (objSetValue id v) := by
-  unfold MesonModel.Options.objSetValue
-  apply Keeps.bind (Keeps.getObj id); intro o
-  apply Keeps.bind (Keeps.ofExcept _); intro w
-  exact Keeps.modify (fun s h => poIs_updObj id _ h)
-theorem Keeps.objSetYieldingPO {po : List Key} (id : Nat) (b : Bool) : Keeps (POIs po) (objSetYielding id b) :=
-  Keeps.modify (fun s h => poIs_updObj id _ h)
-
-macro "po_core" : tactic => `(tactic| first
-  | exact Keeps.pure' _ | exact Keeps.pure _ | exact Keeps.fail _ | exact Keeps.get | exact Keeps.ofExcept _
-  | exact Keeps.assert _ | exact Keeps.getObj _ | exact Keeps.objSetValuePO _ _ | exact Keeps.objSetYieldingPO _ _
-  | (apply Keeps.modify; intro s hs; exact hs)
-  | assumption
-  | with_reducible apply Keeps.bind | with_reducible apply Keeps.bind' | with_reducible apply Keeps.forEach
-  | with_reducible apply Keeps.catchMeson
-  | intro _
-  | split
-  | (dsimp only))
-
-variable {po : List Key}
-theorem KPO.resetPrefixedOptions (a b : Str) : Keeps (POIs po) (resetPrefixedOptions a b) := by
-  unfold MesonModel.Options.resetPrefixedOptions; repeat po_core
-theorem KPO.setOptionTail (s : Store) (k : Key) (f : Bool) (id : Nat) (v : Val) : Keeps (POIs po) (setOptionTail s k f id v) := by
-  unfold MesonModel.Options.setOptionTail; repeat (first | exact KPO.resetPrefixedOptions _ _ | po_core)
-theorem KPO.setOptionCore (k : Key) (v : Val) (f : Bool) : Keeps (POIs po) (setOptionCore k v f) := by
-  unfold MesonModel.Options.setOptionCore; repeat (first | exact KPO.setOptionTail _ _ _ _ _ | po_core)
-theorem KPO.setOption (k : Key) (v : Val) (f : Bool) : Keeps (POIs po) (setOption k v f) := by
-  unfold MesonModel.Options.setOption; repeat (first | exact KPO.setOptionCore _ _ _ | po_core)
-theorem KPO.setUserOption (k : Key) (v : Val) (f : Bool) : Keeps (POIs po) (setUserOption k v f) := by
-  unfold MesonModel.Options.setUserOption; repeat (first | exact KPO.setOption _ _ _ | po_core)
-theorem KPO.configureOne (kv : Key × Option Val) : Keeps (POIs po) (configureOne kv) := by
-  unfold MesonModel.Options.configureOne; repeat (first | exact KPO.setUserOption _ _ _ | po_core)
-theorem KPO.setFromConfigure : ∀ (l : List (Key × Option Val)) (d : Bool), Keeps (POIs po) (setFromConfigure l d)
-  | [], d => Keeps.pure' d
-  | kv :: r, d => by
-    unfold MesonModel.Options.setFromConfigure
-    exact Keeps.bind' (KPO.configureOne kv) (fun b => KPO.setFromConfigure r (d || b))
-theorem KPO.hardResetFromPrefix (p : Str) : Keeps (POIs po) (hardResetFromPrefix p) := by
-  unfold MesonModel.Options.hardResetFromPrefix; repeat po_core
-theorem KPO.firstHandlePrefix (a b c : Dict) : Keeps (POIs po) (firstHandlePrefix a b c) := by
-  unfold MesonModel.Options.firstHandlePrefix; repeat (first | exact KPO.hardResetFromPrefix _ | po_core)
-theorem KPO.initTop (a b c : Dict) : Keeps (POIs po) (initTop a b c) := by
-  unfold MesonModel.Options.initTop
-  repeat (first | exact KPO.firstHandlePrefix _ _ _ | exact KPO.setUserOption _ _ _ | po_core)
-theorem KPO.applyMergedWith (ex : Dict) (sub : Str) (d : Dict) : Keeps (POIs po) (applyMergedWith ex sub d) := by
-  unfold MesonModel.Options.applyMergedWith
-  repeat (first | exact KPO.setUserOption _ _ _ | po_core)
-theorem KPO.applyMerged (sub : Str) (d : Dict) : Keeps (POIs po) (applyMerged sub d) :=
-  ⟨fun s h => (KPO.applyMergedWith s.augments sub (buildtypeFirst d)).run s h⟩
-theorem KPO.initSub (sub : Str) (a b c d : Dict) : Keeps (POIs po) (initSub sub a b c d) := by
-  unfold MesonModel.Options.initSub
-  repeat (first | exact KPO.applyMerged _ _ | po_core)
-
-
-/-! ## the project-option key set through `update_project_options` -/
-
-theorem replaceObj_po (key : Key) (nobj old : Obj) (oid : Nat) (b : Bool) (s : Store) :
-    (replaceObj key nobj old oid b s).2.projectOptions = s.projectOptions := by
-  rw [replaceObj_eq]
-  cases b
-  · exact (Keeps.catchMeson (P := POIs s.projectOptions) (Keeps.objSetValuePO _ _) (Keeps.pure' ())).run _ rfl
-  · rfl
-
-theorem addProjectOption_po (k0 : Key) (o : Obj) (s : Store) :
-    ∀ k ∈ (addProjectOption k0 o s).2.projectOptions, k ∈ s.projectOptions ∨ k = ensureKey s k0 := by
-  intro k hk
-  by_cases hs : (ensureKey s k0).sub.isSome = true
-  · cases hl : alookup (ensureKey s k0) s.options with
-    | some id =>
-      have : (addProjectOption k0 o s).2 = s := by
-        simp [addProjectOption, bind, M.bind, M.get, M.assert, hs, ahas, hl, M.pure, M.fail]
-      rw [this] at hk; exact Or.inl hk
-    | none =>
-      have : (addProjectOption k0 o s).2.projectOptions = setAdd (ensureKey s k0) s.projectOptions := by
-        by_cases hpn : (alookup (ensureKey s k0) s.pending).isSome = true <;>
-          simp [addProjectOption, bind, M.bind, M.get, M.assert, hs, ahas, hl, M.pure, alloc, M.modify, hpn, M.fail]
-      rw [this] at hk
-      unfold setAdd at hk
-      split at hk
-      · exact Or.inl hk
-      · simp only [List.mem_append, List.mem_singleton] at hk
-        exact hk
-  · have : (addProjectOption k0 o s).2 = s := by
-      simp [addProjectOption, bind, M.bind, M.get, M.assert, hs, M.pure, M.fail]
-    rw [this] at hk; exact Or.inl hk
-
-theorem updateOne_po (sub : Str) (key : Key) (nobj : Obj) (s : Store) :
-    ∀ k ∈ (updateOne sub (key, nobj) s).2.projectOptions, k ∈ s.projectOptions ∨ k = key := by
-  intro k hk
-  by_cases hm : key.machine = .host
-  · have he := ensureKey_of_host s key hm
-    cases hl : alookup key s.options with
-    | none =>
-      have : (updateOne sub (key, nobj) s).2 = (addProjectOption key nobj s).2 := by
-        simp [updateOne, bind, M.bind, M.assert, M.get, hm, ahas, hl, M.pure]
-      rw [this] at hk
-      have := addProjectOption_po key nobj s k hk
-      rwa [he] at this
-    | some oid =>
-      by_cases hs : key.sub = some sub
-      · cases ho : s.heap[oid]? with
-        | none =>
-          have : (updateOne sub (key, nobj) s).2 = s := by
-            simp [updateOne, bind, M.bind, M.assert, M.get, hm, ahas, hl, M.pure, hs, he, getObj, ho]
-          rw [this] at hk; exact Or.inl hk
-        | some old =>
-          by_cases hd : (!(old.kind.sameClass nobj.kind) || old.kind.choicesDiffer nobj.kind) = true
-          · have : (updateOne sub (key, nobj) s).2 = (replaceObj key nobj old oid (!(old.kind.sameClass nobj.kind)) s).2 := by
-              have hd' : old.kind.sameClass nobj.kind = false ∨ old.kind.choicesDiffer nobj.kind = true := by
-                simpa using hd
-              simp [updateOne, bind, M.bind, M.assert, M.get, hm, ahas, hl, M.pure, hs, he, getObj, ho, hd']
-            rw [this, replaceObj_po] at hk; exact Or.inl hk
-          · have : (updateOne sub (key, nobj) s).2 = s := by
-              simp only [Bool.or_eq_true, not_or, Bool.not_eq_true] at hd
-              simp [updateOne, bind, M.bind, M.assert, M.get, hm, ahas, hl, M.pure, hs, he, getObj, ho, hd]
-            rw [this] at hk; exact Or.inl hk
-      · have : (updateOne sub (key, nobj) s).2 = s := by
-          simp [updateOne, bind, M.bind, M.assert, M.get, hm, ahas, hl, M.pure, hs, M.fail]
-        rw [this] at hk; exact Or.inl hk
-  · have : (updateOne sub (key, nobj) s).2 = s := by
-      have : (key.machine == Machine.host) = false := by simpa using hm
-      simp [updateOne, bind, M.bind, M.assert, M.get, this, M.fail]
-    rw [this] at hk; exact Or.inl hk
-
-theorem updateLoop_po (sub : Str) : ∀ (objs : List (Key × Obj)) (s : Store),
-    ∀ k ∈ (forEach (updateOne sub) objs s).2.projectOptions, k ∈ s.projectOptions ∨ k ∈ objs.map (·.1)
-  | [], s, k, hk => Or.inl hk
-  | kv :: r, s, k, hk => by
-    simp only [forEach, M.bind] at hk
-    cases hr : updateOne sub kv s with
-    | mk res s1 =>
-      rw [hr] at hk
-      have h1 : ∀ k ∈ s1.projectOptions, k ∈ s.projectOptions ∨ k = kv.1 := by
-        have := updateOne_po sub kv.1 kv.2 s
-        rw [show (kv.1, kv.2) = kv from rfl, hr] at this
-        exact this
-      cases res with
-      | error e =>
-        rcases h1 k hk with h | h
-        · exact Or.inl h
-        · exact Or.inr (by simp [h])
-      | ok u =>
-        rcases updateLoop_po sub r s1 k hk with h | h
-        · rcases h1 k h with h' | h'
-          · exact Or.inl h'
-          · exact Or.inr (by simp [h'])
-        · exact Or.inr (by simp only [List.map_cons, List.mem_cons]; exact Or.inr h)
-
-theorem mkObjs_keys : ∀ {l : List (Key × ObjSpec)} {os : List (Key × Obj)}, mkObjs l = .ok os →
-    os.map (·.1) = l.map (·.1)
-  | [], os, h => by simp [mkObjs] at h; subst h; rfl
-  | (k, sp) :: r, os, h => by
-    unfold mkObjs at h
-    cases ho : mkObj sp with
-    | error e => simp [ho] at h
-    | ok o =>
-      simp only [ho] at h
-      cases hr : mkObjs r with
-      | error e => simp [hr, Except.map] at h
-      | ok os' =>
-        simp only [hr, Except.map, Except.ok.injEq] at h
-        subst h
-        simp [mkObjs_keys hr]
-
-
-/-! ## the store invariant of a build directory -/
-
-def topKeys (top : Defs) : List Key := (fileObjs [] top).map (·.1)
-
-/-- every registered top-level project option is an option of the top-level option file -/
-def TopProj (top : Defs) (s : Store) : Prop := ∀ k ∈ s.projectOptions, k.sub = some [] → k ∈ topKeys top
-
-/-- distinct keys own distinct objects inside the heap; every parent pointer is the registered top-level object;
-the registered top-level project options are those of the top-level option file -/
-def StoreInv (top : Defs) (s : Store) : Prop := Wf s ∧ ParentCurrent s ∧ TopProj top s
-
-theorem fileObjs_sub (proj : Str) (defs : Defs) : ∀ k ∈ (fileObjs proj defs).map (·.1), k.sub = some proj := by
-  intro k hk
-  simp only [fileObjs, List.map_map, List.mem_map, Function.comp] at hk
-  obtain ⟨p, _, rfl⟩ := hk
-  rfl
-
-theorem loadOptionFile_state (proj : Str) (defs : Defs) (s : Store) :
-    (loadOptionFile proj defs s).2 = s ∨
-    ∃ os, mkObjs (fileObjs proj defs) = .ok os ∧ (loadOptionFile proj defs s).2 = (updateProjectOptions proj os s).2 := by
-  unfold loadOptionFile
-  cases h : mkObjs (fileObjs proj defs) with
-  | error e => left; simp [bind, M.bind, M.ofExcept, M.fail]
-  | ok os => right; exact ⟨os, rfl, by simp [bind, M.bind, M.ofExcept, M.pure]⟩
-
-theorem updateProjectOptions_po_sub (sub : Str) (objs : List (Key × Obj)) (s : Store) :
-    ∀ k ∈ (updateProjectOptions sub objs s).2.projectOptions,
-      k ∈ (forEach (updateOne sub) objs s).2.projectOptions := by
-  intro k hk
-  simp only [updateProjectOptions, bind, M.bind] at hk
-  cases hr : forEach (updateOne sub) objs s with
-  | mk res s1 =>
-    rw [hr] at hk
-    cases res with
-    | error e => exact hk
-    | ok u =>
-      simp only [M.modify, List.mem_filter] at hk
-      exact hk.1
-
-/-- re-reading the top-level option file keeps the invariant (w.r.t. that file) -/
-theorem loadTop_keeps (top : Defs) (s : Store) (h : StoreInv top s) : StoreInv top (loadOptionFile [] top s).2 := by
-  rcases loadOptionFile_state [] top s with he | ⟨os, hos, he⟩
-  · rw [he]; exact h
-  · rw [he]
-    obtain ⟨hw, hpc, htp⟩ := h
-    have hkeys : os.map (·.1) = topKeys top := mkObjs_keys hos
-    have hpo : ∀ k ∈ (forEach (updateOne []) os s).2.projectOptions, k.sub = some [] → k ∈ os.map (·.1) := by
-      intro k hk hs
-      rcases updateLoop_po [] os s k hk with h1 | h1
-      · rw [hkeys]; exact htp k h1 hs
-      · exact h1
-    refine ⟨(PresW.updateProjectOptions [] os).run s hw, ?_, ?_⟩
-    · apply update_project_options_keeps_parentCurrent [] os s hw hpc (mkObjs_parent hos)
-      intro k id o pid _ _ _
-      -- the top-level key of a child is not removed: it is a registered project option only if the file has it
-      simp only [goneKey]
-      by_cases hp : (forEach (updateOne []) os s).2.isProjectOption k.asRoot = true
-      · have hm := hpo k.asRoot (by simpa [Store.isProjectOption] using hp) rfl
-        have : (os.any fun p => p.1 == k.asRoot) = true := by
-          simp only [List.any_eq_true, beq_iff_eq]
-          simp only [List.mem_map] at hm
-          obtain ⟨p, hp1, hp2⟩ := hm
-          exact ⟨p, hp1, hp2⟩
-        simp [this]
-      · simp [hp]
-    · intro k hk hs
-      rw [← hkeys]
-      exact hpo k (updateProjectOptions_po_sub [] os s k hk) hs
-
-/-- re-reading the option file of a subproject keeps the invariant -/
-theorem loadSub_keeps (top : Defs) (proj : Str) (defs : Defs) (hp : proj ≠ []) (s : Store) (h : StoreInv top s) :
-    StoreInv top (loadOptionFile proj defs s).2 := by
-  rcases loadOptionFile_state proj defs s with he | ⟨os, hos, he⟩
-  · rw [he]; exact h
-  · rw [he]
-    obtain ⟨hw, hpc, htp⟩ := h
-    refine ⟨(PresW.updateProjectOptions proj os).run s hw,
-      update_subproject_options_keeps_parentCurrent proj os s hp hw hpc (mkObjs_parent hos), ?_⟩
-    intro k hk hs
-    rcases updateLoop_po proj os s k (updateProjectOptions_po_sub proj os s k hk) with h1 | h1
-    · exact htp k h1 hs
-    · rw [mkObjs_keys hos] at h1
-      have := fileObjs_sub proj defs k h1
-      rw [hs] at this
-      exact absurd (Option.some.inj this).symm hp
-
-
-/-! ## the interpretation of the build files keeps the invariant -/
-
-theorem keeps_of_three {α : Type} {m : M α} (top : Defs) (hw : PresW m) (hp : PresPC m)
-    (hpo : ∀ po, Keeps (POIs po) m) : Keeps (StoreInv top) m := by
+/-- re-reading an option file — any declarations, also none — keeps the invariant -/
+theorem loadOptionFile_keeps (proj : Str) (defs : Defs) : Keeps StoreInv (loadOptionFile proj defs) := by
   constructor
   intro s h
-  refine ⟨hw.run s h.1, hp.run s h.2.1, ?_⟩
-  have : (m s).2.projectOptions = s.projectOptions := (hpo s.projectOptions).run s rfl
-  intro k hk hs
-  rw [this] at hk
-  exact h.2.2 k hk hs
+  unfold loadOptionFile
+  cases hm : mkObjs (fileObjs proj defs) with
+  | error e => simpa [bind, M.bind, M.ofExcept, M.fail] using h
+  | ok os =>
+    have : (M.ofExcept (Except.ok os : Except Err _) >>= fun os => updateProjectOptions proj os) s
+        = updateProjectOptions proj os s := by simp [bind, M.bind, M.ofExcept, M.pure]
+    rw [this]
+    exact ⟨(PresW.updateProjectOptions proj os).run s h.1,
+      update_project_options_keeps_parentCurrent proj os s h.1 h.2 (mkObjs_parent hm)⟩
 
 theorem Keeps.getOption {P : Store → Prop} (proj name : Str) : Keeps P (getOption proj name) := by
   constructor
@@ -351,61 +99,52 @@ theorem Keeps.condOption {P : Store → Prop} (proj name : Str) : Keeps P (condO
   · exact Keeps.pure' _
   · exact Keeps.fail _
 
-theorem sSub_ne : sSub ≠ [] := by decide
+theorem Keeps.condIfDeclared {P : Store → Prop} (defs : Defs) (proj name : Str) : Keeps P (condIfDeclared defs proj name) := by
+  unfold MesonModel.Life.condIfDeclared
+  split
+  · exact Keeps.condOption _ _
+  · exact Keeps.pure' _
 
 theorem interpProg_keeps (first : Bool) (ini : List Str) (top sub : Defs) (a b c cmd : Dict) :
-    Keeps (StoreInv top) (interpProg first ini top sub a b c cmd) := by
+    Keeps StoreInv (interpProg first ini top sub a b c cmd) := by
   unfold interpProg
   repeat (first
-    | exact ⟨loadTop_keeps top⟩
-    | exact ⟨loadSub_keeps top sSub sub sSub_ne⟩
-    | exact keeps_of_three top (PresW.initTop _ _ _) (PresPC.initTop _ _ _) (fun _ => KPO.initTop _ _ _)
-    | exact keeps_of_three top (PresW.initSub _ _ _ _ _) (PresPC.initSub _ _ _ _ _) (fun _ => KPO.initSub _ _ _ _ _)
-    | exact Keeps.readAll _ _ | exact Keeps.condOption _ _
+    | exact loadOptionFile_keeps _ _
+    | exact keeps_of_two (PresW.initTop _ _ _) (PresPC.initTop _ _ _)
+    | exact keeps_of_two (PresW.initSub _ _ _ _ _) (PresPC.initSub _ _ _ _ _)
+    | exact Keeps.readAll _ _ | exact Keeps.condIfDeclared _ _ _
     | exact Keeps.pure' _ | exact Keeps.pure _ | exact Keeps.fail _
     | with_reducible apply Keeps.bind | with_reducible apply Keeps.bind'
     | intro _
     | split
     | (dsimp only))
 
-theorem setFromConfigure_keeps (top : Defs) (args : List (Key × Option Val)) (d : Bool) :
-    Keeps (StoreInv top) (setFromConfigure args d) :=
-  keeps_of_three top (PresW.setFromConfigure args d) (PresPC.setFromConfigure args d) (fun _ => KPO.setFromConfigure args d)
-
+theorem setFromConfigure_keeps (args : List (Key × Option Val)) (d : Bool) : Keeps StoreInv (setFromConfigure args d) :=
+  keeps_of_two (PresW.setFromConfigure args d) (PresPC.setFromConfigure args d)
 
 /-! ## the directory invariant and `step` -/
 
-/-- well-formedness of a build directory: the persisted store satisfies `StoreInv` w.r.t. the top-level option file -/
-def DirInv (d : Dir) : Prop := ∀ c, d.core = some c → StoreInv d.top c.store
-
-/-- the command does not delete an option from the top-level option file -/
-def NoTopRemoval : Cmd → Prop
-  | .editRemove false _ => False
-  | _ => True
+/-- well-formedness of a build directory: in the persisted store distinct keys own distinct objects inside the heap
+and every parent pointer is the object registered under the top-level key -/
+def DirInv (d : Dir) : Prop := ∀ c, d.core = some c → StoreInv c.store
 
 theorem newCore_stale : staleKeys newCore.store = [] := by
   have h : (staleKeys newCore.store).isEmpty = true := by decide +kernel
   exact List.isEmpty_iff.mp h
-theorem newCore_po : newCore.store.projectOptions = [] := by
-  have h : newCore.store.projectOptions.isEmpty = true := by decide +kernel
-  exact List.isEmpty_iff.mp h
 
-theorem newCore_inv (top : Defs) : StoreInv top newCore.store := by
+theorem newCore_inv : StoreInv newCore.store := by
   have hw : Wf newCore.store := by
     have e : newCore.store = (initBuiltins (Store.new false)).2 := by
       simp only [newCore]
     rw [e]
     exact PresW.initBuiltins.run _ (wf_new false)
-  refine ⟨hw, parentCurrent_of_staleKeys_nil newCore_stale, ?_⟩
-  intro k hk
-  rw [newCore_po] at hk
-  cases hk
+  exact ⟨hw, parentCurrent_of_staleKeys_nil newCore_stale⟩
 
 theorem interpret_inv (first : Bool) (c : Core) (d : Dir) (cmd : Dict) (r : Interp)
-    (h : interpret first c d cmd = .ok r) (hc : StoreInv d.top c.store) : StoreInv d.top r.core.store := by
+    (h : interpret first c d cmd = .ok r) (hc : StoreInv c.store) : StoreInv r.core.store := by
   simp only [interpret] at h
-  have hk := (interpProg_keeps first c.initialized d.top d.sub d.pdoTop d.pdoSub d.spcall cmd).run c.store hc
-  cases hr : interpProg first c.initialized d.top d.sub d.pdoTop d.pdoSub d.spcall cmd c.store with
+  have hk := (interpProg_keeps first c.initialized d.topEff d.subEff d.pdoTop d.pdoSub d.spcall cmd).run c.store hc
+  cases hr : interpProg first c.initialized d.topEff d.subEff d.pdoTop d.pdoSub d.spcall cmd c.store with
   | mk res s' =>
     rw [hr] at h hk
     cases res with
@@ -417,7 +156,7 @@ theorem interpret_inv (first : Bool) (c : Core) (d : Dir) (cmd : Dict) (r : Inte
       exact hk
 
 theorem commitFirst_inv (d : Dir) (so user : Dict) (r : Except Err Interp) (hd : DirInv d)
-    (hr : ∀ x, r = .ok x → StoreInv d.top x.core.store) : DirInv (commitFirst d so user r).1 := by
+    (hr : ∀ x, r = .ok x → StoreInv x.core.store) : DirInv (commitFirst d so user r).1 := by
   cases r with
   | error e => exact hd
   | ok x =>
@@ -432,7 +171,7 @@ theorem commitFirst_inv (d : Dir) (so user : Dict) (r : Except Err Interp) (hd :
         exact hr x rfl
 
 theorem commitReconf_inv (d : Dir) (nd user : Dict) (r : Except Err Interp) (hd : DirInv d)
-    (hr : ∀ x, r = .ok x → StoreInv d.top x.core.store) : DirInv (commitReconf d nd user r).1 := by
+    (hr : ∀ x, r = .ok x → StoreInv x.core.store) : DirInv (commitReconf d nd user r).1 := by
   cases r with
   | error e => exact hd
   | ok x =>
@@ -447,12 +186,12 @@ theorem commitReconf_inv (d : Dir) (nd user : Dict) (r : Except Err Interp) (hd 
         exact hr x rfl
 
 theorem firstInvocation_inv (d : Dir) (so : Dict) (hd : DirInv d) : DirInv (firstInvocation d so).1 :=
-  commitFirst_inv d so _ _ hd (fun x hx => interpret_inv true newCore d _ x hx (newCore_inv d.top))
+  commitFirst_inv d so _ _ hd (fun x hx => interpret_inv true newCore d _ x hx newCore_inv)
 
 theorem reconfigure_inv (d : Dir) (c : Core) (nd : Dict) (hd : DirInv d) (hc : d.core = some c) :
     DirInv (reconfigure d c nd).1 := by
   unfold reconfigure
-  have h0 := (setFromConfigure_keeps d.top (dArgs nd) false).run c.store (hd c hc)
+  have h0 := (setFromConfigure_keeps (dArgs nd) false).run c.store (hd c hc)
   cases hs : setFromConfigure (dArgs nd) false c.store with
   | mk res s1 =>
     rw [hs] at h0
@@ -461,22 +200,16 @@ theorem reconfigure_inv (d : Dir) (c : Core) (nd : Dict) (hd : DirInv d) (hc : d
     | ok b =>
       exact commitReconf_inv d nd _ _ hd (fun x hx => interpret_inv false { c with store := s1 } d _ x hx h0)
 
-theorem reloadChanged_keeps (d : Dir) : ∀ (l : List (Str × Defs)), Keeps (StoreInv d.top) (reloadChanged d l)
+theorem reloadChanged_keeps (d : Dir) : ∀ (l : List (Str × Option Bool × Defs)), Keeps StoreInv (reloadChanged d l)
   | [] => Keeps.pure' _
-  | (p, rec) :: r => by
+  | (p, recF, rec) :: r => by
     have ih := reloadChanged_keeps d r
     unfold reloadChanged
-    by_cases hp : p = []
-    · subst hp
-      simp only [beq_self_eq_true, if_true]
-      split
-      · exact Keeps.bind' ⟨loadTop_keeps d.top⟩ (fun _ => Keeps.bind' ih (fun _ => Keeps.pure' _))
-      · exact Keeps.bind' ih (fun _ => Keeps.pure' _)
-    · have hpf : (p == []) = false := by simpa using hp
-      simp only [hpf, Bool.false_eq_true, if_false]
-      split
-      · exact Keeps.bind' ⟨loadSub_keeps d.top p d.sub hp⟩ (fun _ => Keeps.bind' ih (fun _ => Keeps.pure' _))
-      · exact Keeps.bind' ih (fun _ => Keeps.pure' _)
+    dsimp only
+    repeat (first
+      | exact Keeps.bind' (loadOptionFile_keeps _ _) (fun _ => Keeps.bind' ih (fun _ => Keeps.pure' _))
+      | exact Keeps.bind' ih (fun _ => Keeps.pure' _)
+      | split)
 
 theorem configure_inv (d : Dir) (args : List (Key × Option Val)) (hd : DirInv d) : DirInv (configure d args).1 := by
   unfold configure
@@ -494,7 +227,7 @@ theorem configure_inv (d : Dir) (args : List (Key × Option Val)) (hd : DirInv d
         | error e => exact hd
         | ok files =>
           dsimp only
-          have h2 := (setFromConfigure_keeps d.top args false).run s1 h1
+          have h2 := (setFromConfigure_keeps args false).run s1 h1
           cases hs : setFromConfigure args false s1 with
           | mk res2 s2 =>
             rw [hs] at h2
@@ -510,40 +243,8 @@ theorem configure_inv (d : Dir) (args : List (Key × Option Val)) (hd : DirInv d
               · intro c' hc'
                 exact hd c' hc'
 
-
-theorem names_ainsert (name : Str) (sp : ObjSpec) : ∀ (top : Defs) (n : Str), n ∈ top.map (·.1) →
-    n ∈ (ainsert name sp top).map (·.1)
-  | [], n, h => by cases h
-  | (n', sp') :: r, n, h => by
-    simp only [ainsert]
-    split
-    · rename_i e
-      simp only [List.map_cons, List.mem_cons] at h ⊢
-      rcases h with h | h
-      · left; rw [h, e]
-      · right; exact h
-    · simp only [List.map_cons, List.mem_cons] at h ⊢
-      rcases h with h | h
-      · left; exact h
-      · right; exact names_ainsert name sp r n h
-
-theorem topKeys_mono (name : Str) (sp : ObjSpec) (top : Defs) (k : Key) (h : k ∈ topKeys top) :
-    k ∈ topKeys (ainsert name sp top) := by
-  simp only [topKeys, fileObjs, List.map_map, List.mem_map, Function.comp] at h ⊢
-  obtain ⟨p, hp, rfl⟩ := h
-  have := names_ainsert name sp top p.1 (List.mem_map_of_mem hp)
-  simp only [List.mem_map] at this
-  obtain ⟨q, hq, hqe⟩ := this
-  exact ⟨q, hq, by rw [hqe]⟩
-
-theorem storeInv_mono (name : Str) (sp : ObjSpec) (top : Defs) (s : Store) (h : StoreInv top s) :
-    StoreInv (ainsert name sp top) s :=
-  ⟨h.1, h.2.1, fun k hk hs => topKeys_mono name sp top k (h.2.2 k hk hs)⟩
-
-/-- **the directory invariant is an invariant of `step`** for every command — setup, reconfigure, configure, wipe,
-regeneration after a corrupt coredata, option-file edits, and all their failing variants — except the deletion of an
-option from the top-level option file -/
-theorem step_inv (d : Dir) (c : Cmd) (hc : NoTopRemoval c) (hd : DirInv d) : DirInv (step d c).1 := by
+/-- **the directory invariant is an invariant of `step`, for every command** -/
+theorem step_inv (d : Dir) (c : Cmd) (hd : DirInv d) : DirInv (step d c).1 := by
   cases c with
   | setup nd =>
     simp only [step]
@@ -568,32 +269,23 @@ theorem step_inv (d : Dir) (c : Cmd) (hc : NoTopRemoval c) (hd : DirInv d) : Dir
     simp only [step]
     exact firstInvocation_inv _ _ (fun c h => by simp at h)
   | editSet b n sp =>
-    cases b
-    · intro c0 h0
-      simp only [step, editDefs] at h0 ⊢
-      exact storeInv_mono n sp d.top c0.store (hd c0 h0)
-    · intro c0 h0
-      simp only [step] at h0 ⊢
-      exact hd c0 h0
+    cases b <;> (intro c0 h0; simp only [step] at h0; exact hd c0 h0)
   | editRemove b n =>
-    cases b
-    · exact absurd hc (by simp [NoTopRemoval])
-    · intro c0 h0
-      simp only [step] at h0 ⊢
-      exact hd c0 h0
+    cases b <;> (intro c0 h0; simp only [step] at h0; exact hd c0 h0)
   | corrupt =>
     simp only [step]
     split
     · intro c0 h0; simp at h0
     · exact hd
+  | fileSet b f =>
+    cases b <;> (intro c0 h0; simp only [step] at h0; exact hd c0 h0)
 
-/-- every history that starts from an empty build directory and never deletes an option from the top-level option
-file ends in a well-formed directory -/
-theorem runHist_inv : ∀ (h : List Cmd) (d : Dir), (∀ c ∈ h, NoTopRemoval c) → DirInv d → DirInv (runHist d h)
-  | [], _, _, hd => hd
-  | c :: r, d, hn, hd => by
+/-- every history from a well-formed directory ends in a well-formed directory -/
+theorem runHist_inv : ∀ (h : List Cmd) (d : Dir), DirInv d → DirInv (runHist d h)
+  | [], _, hd => hd
+  | c :: r, d, hd => by
     simp only [runHist]
-    exact runHist_inv r _ (fun x hx => hn x (by simp [hx])) (step_inv d c (hn c (by simp)) hd)
+    exact runHist_inv r _ (step_inv d c hd)
 
 theorem dirInv_empty (d : Dir) (h : d.core = none) : DirInv d := fun c hc => by rw [h] at hc; cases hc
 
